@@ -174,6 +174,56 @@ class FnSpaces:
                         if base in self.list_kinds:
                             changed |= self.set(ins.res, self.list_kinds[base], f'element of a {self.list_kinds[base]} list (line {ins.line})')
         return self
+    def param_needs(self):
+        """{parameter index: space} for scalar parameters used directly as a subscript of parity_bms[] / data_bms[]"""
+        fn, P = self.fn, self.P
+        need = {}
+        for ins in fn.insts():
+            if ins.op == 'getelementptr' and len(ins.ops) == 2:
+                idx = self.root(ins.ops[1])
+                pi = fn.param_index(idx)
+                if pi is None:
+                    continue
+                bd = fn.defs.get(strip_ptr_casts(fn, ins.ops[0]))
+                if bd is not None and bd.op == 'load':
+                    root, steps = access_path(P, fn, bd.ops[0])
+                    fl = fields_in_path(steps)
+                    if fl and fl[-1] == ('xor_code_s', 'parity_bms'):
+                        need[pi] = PR
+                    if fl and fl[-1] == ('xor_code_s', 'data_bms'):
+                        need[pi] = D
+            if ins.op == 'getelementptr' and ins.ops[0].startswith('@') and 'bit_lookup' in ins.ops[0] and len(ins.ops) == 3:
+                pi = fn.param_index(self.root(ins.ops[2]))
+                if pi is not None:
+                    need.setdefault(pi, 'REL')        # g_bit_lookup[x] == 1 << x
+            if ins.op == 'shl' and ins.ops[0] == '1':
+                pi = fn.param_index(self.root(ins.ops[1]))
+                if pi is not None:
+                    need.setdefault(pi, 'REL')        # a bit position inside a per-kind bitmap: relative to its kind, never absolute
+        return need
+
+    def check_calls(self, needs):
+        """arguments handed to a parameter that is used as a parity-relative / data subscript"""
+        fn = self.fn
+        out = []
+        for ins in fn.insts():
+            if ins.op != 'call' or ins.callee not in needs:
+                continue
+            for pi, sp in needs[ins.callee].items():
+                if pi >= len(ins.ops):
+                    continue
+                a = self.root(ins.ops[pi])
+                have = self.space.get(a)
+                d = fn.defs.get(a)
+                if sp == 'REL' and have in (D, PR):
+                    continue
+                if have is not None and have != sp:
+                    out.append((ins, f'argument {pi} of {ins.callee} is used there as a {sp} subscript but a {have} value is passed ({self.why[a]})', f'{sp} parameter given {have}'))
+                elif have is None and d is not None and d.op in ('sub', 'add') and any(self.root(o) in self.mvals for o in d.ops):
+                    out.append((ins, f'argument {pi} of {ins.callee} is used there as a {sp} subscript; the caller converts with m (x {"-" if d.op == "sub" else "+"} m) - '
+                                     'absolute and relative parity indexes differ by k', f'{sp} parameter computed with m'))
+        return out
+
     def check(self):
         fn, P = self.fn, self.P
         out = []
@@ -232,6 +282,23 @@ def index_space_rule(P, r):
                             if a in lk and ai < len(cal.params):
                                 param_lists.setdefault(cal.name, {}).setdefault(cal.params[ai][1], lk[a])
     total = 0
+    needs = {}
+    for u in XOR_UNITS:
+        for fn in P.mod(u).functions.values():
+            nd = FnSpaces(P, fn, {}, {}).param_needs()
+            if nd:
+                needs[fn.name] = nd
+    # a parameter handed on unchanged to a parameter with a need inherits it
+    for _ in range(4):
+        for u in XOR_UNITS:
+            for fn in P.mod(u).functions.values():
+                for ins in fn.insts():
+                    if ins.op == 'call' and ins.callee in needs:
+                        for pi, sp in needs[ins.callee].items():
+                            if pi < len(ins.ops):
+                                mine = fn.param_index(strip_int_casts(fn, ins.ops[pi]))
+                                if mine is not None:
+                                    needs.setdefault(fn.name, {}).setdefault(mine, sp)
     for u in XOR_UNITS:
         m = P.mod(u)
         for fn in m.functions.values():
@@ -246,7 +313,7 @@ def index_space_rule(P, r):
                     if ins.callee == '@get_missing_parity':
                         list_kinds[ins.res] = PA
             fs = FnSpaces(P, fn, list_kinds, arr_roles).infer()
-            bad = fs.check()
+            bad = fs.check() + fs.check_calls(needs)
             badset = {id(i) for i, _, _ in bad}
             for ins, msg, sig in bad:
                 r.fail(f'{fn.name} line {ins.line}', func=fn.name, sig=sig, loc=ins.loc, msg=msg)
@@ -685,3 +752,76 @@ def reconstruct_fallback_rule(P, r):
                msg=f'no call of the full decoder can be reached when the destination is a {miss[0]} fragment without a cheap equation')
     else:
         r.ok(inst, func=f.name, loc=calls[0].loc)
+
+
+# ------------------------------------------------------------------ R15g decoders write only what is missing
+def write_targets_rule(P, r):
+    """every buffer written by the XOR decode-side functions (destination of xor_bufs_and_store / fast_memcpy / memset / memcpy) is
+    data[x] / parity[x] with x taken from a missing-index list (or the destination index parameter), or a local scratch
+    allocation - never a buffer selected by searching the surviving equations, which is a caller-supplied input"""
+    from .vflow import derived_pointers
+    WR = {'@xor_bufs_and_store': 1, '@fast_memcpy': 0, '@llvm.memset.p0i8.i64': 0, '@llvm.memcpy.p0i8.p0i8.i64': 0, '@memset': 0, '@memcpy': 0}
+    n = 0
+    for u in XOR_UNITS:
+        for fn in P.mod(u).functions.values():
+            if fn.name in ('@xor_code_encode', '@xor_bufs_and_store', '@fast_memcpy'):
+                continue
+            arrs = [pn for pty, pn in fn.params if pty == 'i8**']
+            if len(arrs) < 2:
+                continue
+            lists = {pn for pty, pn in fn.params if pty == 'i32*'} | {i.res for i in fn.insts() if i.op == 'call' and i.callee in ('@get_missing_data', '@get_missing_parity')}
+            M = {pn for pty, pn in fn.params if pty == 'i32'}
+            changed = True
+            while changed:
+                changed = False
+                for ins in fn.insts():
+                    if not ins.res or ins.res in M:
+                        continue
+                    if ins.op == 'load':
+                        g = fn.defs.get(ins.ops[0])
+                        base = strip_ptr_casts(fn, g.ops[0]) if g is not None and g.op == 'getelementptr' else strip_ptr_casts(fn, ins.ops[0])
+                        bd = fn.defs.get(base)
+                        while bd is not None and bd.op == 'phi':
+                            nxt = [v for v, _ in bd.incoming if strip_ptr_casts(fn, v) in lists]
+                            base = strip_ptr_casts(fn, nxt[0]) if nxt else base
+                            break
+                        if base in lists:
+                            M.add(ins.res); changed = True
+                    elif ins.op in ('sext', 'zext', 'trunc', 'add', 'sub', 'select', 'phi'):
+                        ops = [v for v, _ in ins.incoming] if ins.op == 'phi' else (ins.ops[1:] if ins.op == 'select' else ins.ops)
+                        if any(o in M for o in ops) and all(o in M or INT.match(o) or (fn.defs.get(o) is not None and fn.defs[o].op == 'load') for o in ops):
+                            M.add(ins.res); changed = True
+            def target_ok(v, depth=0):
+                v = strip_ptr_casts(fn, v)
+                d = fn.defs.get(v)
+                if d is None:
+                    return v not in arrs and fn.param_index(v) is not None and False, f'parameter {v}'
+                if d.op == 'call' and d.callee in ('@malloc', '@calloc', '@get_aligned_buffer16'):
+                    return True, 'local allocation'
+                if d.op == 'load':
+                    g = fn.defs.get(d.ops[0])
+                    if g is not None and g.op == 'getelementptr' and strip_ptr_casts(fn, g.ops[0]) in arrs:
+                        idx = strip_int_casts(fn, g.ops[-1])
+                        return (idx in M), f'{"data" if strip_ptr_casts(fn, g.ops[0]) == arrs[0] else "parity"}[{Canon(P, fn).val(idx)[:40]}]'
+                    sl = fn.defs.get(strip_ptr_casts(fn, d.ops[0]))
+                    if sl is not None and sl.op == 'alloca':
+                        return True, 'local slot (posix_memalign)'
+                if d.op in ('phi', 'select') and depth < 4:
+                    ops = [x for x, _ in d.incoming] if d.op == 'phi' else d.ops[1:]
+                    res = [target_ok(o, depth + 1) for o in ops if o != 'null']
+                    bad = [w for ok_, w in res if not ok_]
+                    return (not bad), (bad[0] if bad else 'merge of allowed targets')
+                if d.op == 'getelementptr':
+                    return target_ok(d.ops[0], depth + 1)
+                return False, Canon(P, fn).val(v)[:50]
+            for c in [i for i in fn.insts() if i.op == 'call' and i.callee in WR]:
+                n += 1
+                ok_, what = target_ok(c.ops[WR[c.callee]])
+                inst = f'{fn.name}: {c.callee[1:].split(".")[0]} at line {c.line} writes {what}'
+                if ok_:
+                    r.ok(inst, func=fn.name, loc=c.loc)
+                else:
+                    r.fail(inst, func=fn.name, sig=f'writes {what}, not selected by a missing-index list', loc=c.loc,
+                           msg=f'{fn.name} writes into {what}: that buffer is chosen by searching the surviving equations, i.e. it is a fragment the caller supplied - '
+                               'inputs must not be used as scratch space, even if restored afterwards')
+    return n
